@@ -67,7 +67,7 @@ impl Property for C26 {
         vec!["'inside the document' is judged in the server's own line model (lines split at \\n, UTF-16 columns); the line model itself is C22/C23".into()]
     }
     fn cases(&self, tier: Tier) -> u32 {
-        tier.pick(1500, 100_000)
+        tier.pick(6000, 100_000)
     }
     fn strategy(&self, tier: Tier) -> BoxedStrategy<Case> {
         (docgen::document(tier), proptest::collection::vec(prop_oneof![3 => any::<u16>().prop_map(PosSel::At), 2 => any::<u16>().prop_map(PosSel::LineEnd)], 4..tier.pick(12, 24)), proptest::bool::weighted(0.1))
